@@ -238,6 +238,34 @@ func init() {
 		}
 		return sb.String()
 	})
+	// ligature names whose first component denotes 1, 2, 3 or 4 characters
+	// (every multi-character entry of the glyph list and some single ones):
+	// two look-ups that share the first component, the first result examined
+	// again after the second call
+	add("names-shared-first", func() string {
+		var sb strings.Builder
+		firsts := append([]string{"f", "A", "a100", "uni0041", "u1F600", "Lcommaaccent"}, multiCodeNames...)
+		for round := 0; round < 2; round++ {
+			for _, n := range firsts {
+				alone := string(names.ToUnicode(n, false))
+				r1 := names.ToUnicode(n+"_A_B", false)
+				c1 := string(r1)
+				r2 := names.ToUnicode(n+"_x_y_z", false)
+				c2 := string(r2)
+				r3 := names.ToUnicode(n, false)
+				if string(r1) != c1 || string(r2) != c2 {
+					fmt.Fprintf(&sb, "UNSTABLE-RESULT %s_A_B: %q became %q;", n, c1, string(r1))
+				}
+				if c1 != alone+"AB" || c2 != alone+"xyz" || string(r3) != alone {
+					fmt.Fprintf(&sb, "WRONG %s: alone %q, _A_B %q, _x_y_z %q, alone again %q;", n, alone, c1, c2, string(r3))
+				}
+				if round == 0 {
+					fmt.Fprintf(&sb, "%s=%q;", n, alone)
+				}
+			}
+		}
+		return sb.String()
+	})
 	// multi-component names build their result piecewise: many look-ups in a
 	// row, and every result is looked at again after later look-ups were
 	// made (a result handed out must not change behind the caller's back)
@@ -262,6 +290,15 @@ func init() {
 		}
 		return sb.String()
 	})
+}
+
+func itemIndex(name string) int {
+	for i, w := range workload {
+		if w.name == name {
+			return i
+		}
+	}
+	panic("no workload item " + name)
 }
 
 func runWorkload() []string {
@@ -557,6 +594,9 @@ func clipStr(s string) string {
 
 func checkHistory(c *historyCase) (msg string, effective int) {
 	for _, r := range runWorkload() {
+		if i := strings.Index(r, "WRONG "); i >= 0 {
+			return "a ligature name does not map to the concatenation of its components' texts, or a component alone maps differently after the ligature was looked up: " + clipStr(r[i:]), 0
+		}
 		if i := strings.Index(r, "UNSTABLE-RESULT"); i >= 0 {
 			return "a value returned by a name look-up changed when another name was looked up (shared mutable state behind a package-level function): " + clipStr(r[i:]), 0
 		}
@@ -728,9 +768,10 @@ func TestRaceChild(t *testing.T) {
 		}
 		if c.FirstUse {
 			// name look-ups and writers first: first-use initialisation
-			items[g][0] = len(workload) - 1 - g%5 // names-multi / names-compat / build / names / queries
+			firstItems := []string{"names-multi", "names-shared-first", "names-compat", "build", "names", "queries"}
+			items[g][0] = itemIndex(firstItems[g%len(firstItems)])
 			if len(items[g]) > 1 {
-				items[g][1] = len(workload) - 7 + g%2 // WritePDF / afm
+				items[g][1] = itemIndex([]string{"writepdf", "afm"}[g%2])
 			}
 		}
 	}
